@@ -16,7 +16,7 @@ RULE = ("one case = one [Events] section (0-200 quoted event lines over a hostil
         "appeared in a chart whose three lists matched")
 ASSUMPTIONS = [
     "lines laid out as Moonscraper writes them (two-space indent, nothing after the closing quote)",
-    "a quoted text that is neither lyric/section-prefixed nor free of inner quotes must yield no event (its warning is C14's)",
+    "a quoted text that is neither lyric/section-prefixed nor free of inner quotes is don't-care (the statement is silent): not generated",
     "ticks non-decreasing within the section (repeats allowed)",
 ]
 DIRECTED = ["lyric x", "section x", "x", "lyric", "section", "lyric ", "section ", "lyricx", "sectionx", "Lyric x", "SECTION x",
@@ -28,7 +28,7 @@ DIRECTED = ["lyric x", "section x", "x", "lyric", "section", "lyric ", "section 
 
 
 def required(tier):
-    return ["kind:lyric", "kind:section", "kind:text", "kind:none", "inner_quote_in_lyric_or_section", "keyword_without_blank_is_text",
+    return ["kind:lyric", "kind:section", "kind:text", "inner_quote_in_lyric_or_section", "keyword_without_blank_is_text",
             "empty_remainder", ">=2_kinds_in_one_chart", "repeated_tick", "concurrent_stage", "ticks_not_in_file_order_within_one_tempo_segment",
             "long_runs_of_one_kind_then_another"]
 
@@ -52,7 +52,7 @@ def make_case(rng, i):
         # one tempo segment: every hint is valid whatever the order of the lines, so "in file order" is decidable
         # for lines whose ticks DEcrease as well ("forall ticks; forall line orders")
         rng.shuffle(ticks)
-    globals_, lines, texts = [], [], []
+    globals_, lines, texts, dontcare = [], [], [], []
     runs = gen.run_structured_kinds(rng, len(ticks)) if (len(ticks) >= 40 and i % 3 == 0) else None
     for j, t in enumerate(ticks):
         r = rng.random()
@@ -63,10 +63,12 @@ def make_case(rng, i):
             raw, kind, value = gen.classify_text(rng.choice(DIRECTED))
         else:
             raw, kind, value = gen.gen_event_text(rng, hostile=r < 0.85)
+        if kind == "none":
+            dontcare.append(raw)  # quoted text with inner quotes and no lyric/section prefix: the statement is silent; not emitted
+            continue
         lines.append(f"  {t} = E \"{raw}\"")
         texts.append((raw, kind))
-        if kind != "none":
-            globals_.append([t, kind, value])
+        globals_.append([t, kind, value])
     truth = {"resolution": res, "tempos": tempos, "timesigs": [[0, 4, None]]}
     case = gen.render_truth(truth)
     truth["globals"] = globals_
